@@ -35,6 +35,10 @@ def isinstance_(ex, v, cls):
             return r
     if isinstance(v, VItem):
         raise OutOfSubset('isinstance on opaque item')
+    if isinstance(v, VItv):
+        is_i = any(issubclass(int, c) for c in classes)
+        is_t = any(issubclass(tuple, c) for c in classes)
+        return z3.Or(z3.And(v.isint, z3.BoolVal(is_i)), z3.And(z3.Not(v.isint), z3.BoolVal(is_t)))
     try:
         rep = v.rep()
     except OutOfSubset:
@@ -313,6 +317,7 @@ def function(ex: I.Executor, f, args, kwargs):
             raise OutOfSubset('min/max with key')
         if not items:
             ex.raise_py(ValueError)
+        items = [ex.itv_num(i) for i in items]
         best = items[0]
         for it in items[1:]:
             c = ex.order('<' if f is min else '>', it, best)
@@ -363,6 +368,12 @@ def function(ex: I.Executor, f, args, kwargs):
             s = args[0]
             return VSeq(s.len, s.arr, s.kind)
         return VPyList(ex.iter_concrete(args[0]))
+    if f is enumerate and isinstance(args[0], VSeq):
+        return I.VEnum(args[0], args[1] if len(args) > 1 else kwargs.get('start', VInt(0)))
+    if f is reversed and isinstance(args[0], I.VRange) and NOTCONC in (args[0].lo.conc, args[0].hi.conc):
+        if args[0].step.conc != 1:
+            raise OutOfSubset('reversed symbolic range with step')
+        return I.VRange(VInt(args[0].hi.t - 1), VInt(args[0].lo.t - 1), VInt(-1))
     if f is enumerate:
         items = ex.iter_concrete(args[0])
         start = args[1].conc if len(args) > 1 else kwargs['start'].conc if 'start' in kwargs else 0
@@ -455,7 +466,59 @@ def _pure(f) -> bool:
     return False
 
 
+def seq_method(ex, l: VSeq, name, args, kwargs):
+    k = z3.Int('k!seq')
+    if name == 'append':
+        ex.store_effect('mutate', l, None)
+        l.arr = z3.Store(l.arr, l.len, l.kind.unwrap(ex.norm_item(args[0])))
+        l.len = l.len + 1
+        return NONE
+    if name == 'insert':
+        ex.store_effect('mutate', l, None)
+        it = I.as_int_term(args[0])
+        if it is None:
+            ex.raise_py(TypeError)
+        # list.insert clamps the index into [0, len]
+        pos = z3.If(it < 0, z3.If(it + l.len < 0, 0, it + l.len), z3.If(it > l.len, l.len, it))
+        old = l.arr
+        l.arr = z3.Lambda([k], z3.If(k < pos, z3.Select(old, k),
+                                     z3.If(k == pos, l.kind.unwrap(ex.norm_item(args[1])), z3.Select(old, k - 1))))
+        l.len = l.len + 1
+        return NONE
+    if name == 'copy':
+        return VSeq(l.len, l.arr, l.kind, l.pycls)
+    if name == 'clear':
+        ex.store_effect('mutate', l, None)
+        l.len = z3.IntVal(0)
+        return NONE
+    if name == 'pop' and not args:
+        ex.store_effect('mutate', l, None)
+        if ex.branch(l.len == 0):
+            ex.raise_py(IndexError)
+        v = l.get(l.len - 1)
+        l.len = l.len - 1
+        return v
+    return NOMODEL
+
+
+def seq_delitem(ex, l: VSeq, idx: Val):
+    k = z3.Int('k!seq')
+    it = I.as_int_term(idx)
+    if it is None:
+        ex.raise_py(TypeError)
+    if ex.branch(z3.Or(it >= l.len, it < -l.len)):
+        ex.raise_py(IndexError)
+    pos = ex.norm_index(it, l.len)
+    old = l.arr
+    l.arr = z3.Lambda([k], z3.If(k < pos, z3.Select(old, k), z3.Select(old, k + 1)))
+    l.len = l.len - 1
+
+
 def method(ex: I.Executor, recv: Val, name: str, args, kwargs):
+    if isinstance(recv, VSeq):
+        r = seq_method(ex, recv, name, args, kwargs)
+        if r is not NOMODEL:
+            return r
     if isinstance(recv, VStr):
         return str_method(ex, recv, name, args, kwargs)
     if isinstance(recv, VPyList):
